@@ -40,6 +40,10 @@ CHECKS = {
    text="ProcessParallel, ParallelForEach, itertool.Worker, Map and GenerateParallel under all 8 ContinueOnError/ContinueOnPanic/IncludeContextExpirationErrors combinations x ExcludedErrors {none, the injected error, an unrelated one} x default or erc.Collector collection x 1-4 workers, with one or two injected failures of kind plain / wrapped / panic(error|string|struct) / ErrIteratorSkip / io.EOF / returned context.Canceled at tape-chosen item positions and optional real cancellation, under seeded schedules. Oracle on the call log and the result R: nothing escapes as a panic; every reportable failure satisfies errors.Is(R, it) (ErrRecoveredPanic for panics); EOF, skip, context errors (unless included) and excluded errors are never reported; R is nil iff nothing reportable happened; continue modes process every item exactly once; in abort modes the failing worker processes nothing further and, counted from the moment its goroutine has exited, at most workers-1 further items start (GenerateParallel: a 300-call input is not drained).",
    note="The matrix is sampled per run from the tape (quick) rather than enumerated cell by cell; the evidence file reports which (construct, options, fault) cells were reached as distinct_states. When the consumer of a Map/Generate output is itself cancelled, failures that happen after its Close cannot be in the result and are not required. ErrCurrentOpAbort is not injected (the statement does not classify it).",
    tech=TECH + "; callback fault matrix x WorkerGroupConf, error-contract oracle on the call log"),
+ "C15": dict(cat="exploration", ref="§2 C15",
+   text="1-4 caller tasks x 1-3 calls each of every Once form (Worker/Operation/Producer/Processor/Handler/Future.Once, adt.Once Resolve and Do, adt.Mnemonize, ft.Once, ft.OnceDo), every Limit(n) form and every Lock form around a wrapped function that records enter/exit stamps and yields in the middle; oracles: one execution, no caller returns before its exit stamp, all callers see its value/error; exactly min(n, calls) executions and the last result afterwards; no two [enter, exit] intervals overlap. A second family checks that the waiters of Operation/Worker Signal, Launch, Background, StartGroup and Processor.Background return only after the background function's exit stamp and carry its error. Retry(n), Join and Pre/PostHook order are single-task reference checks run through the same tape/replay machinery.",
+   note="The Retry/Join/hook sub-cases have one task and no faults: for them this is seeded generation against an independent reference, the simulator adds only replay and shrinking.",
+   tech=TECH + "; invocation-counter / overlap-gauge / completion-stamp oracles"),
 }
 NA = [
  ("C16", "dt.List/dt.Stack are single-goroutine data structures: the property quantifies over operation sequences only; there is no schedule, clock, fault or interleaving for a simulator to own (pure model-based testing target)."),
